@@ -1,7 +1,9 @@
 package pipeline
 
 import (
+	"github.com/ozontech/file.d/pipeline/antispam"
 	"sync"
+	"time"
 
 	"github.com/ozontech/file.d/decoder"
 	"go.uber.org/atomic"
@@ -116,4 +118,29 @@ func verifDrain(p *Pipeline, want string, structuralOnly bool) {
 	}
 	p.finalize(e, false, true)
 	vf.Assert(st.instantGet() == nil, "stream-holds-the-event-once")
+}
+
+// C20.H3d: the pipeline's antispam maintenance goroutine keeps running while the pipeline is idle: a
+// banned source that falls silent (nothing else is admitted either) is unbanned.
+func VerifH_C20_maintenanceWhileIdle() {
+	unban := 1 + vf.Choose("unban-iterations", 2)
+	p := &Pipeline{settings: &Settings{Antispam: AntispamSettings{MaintenanceInterval: time.Second}}}
+	p.antispamer = antispam.VerifNewAntispammer(&antispam.Options{MaintenanceInterval: time.Second, Threshold: 2, UnbanIterations: unban})
+	go p.antispammerMaintenance()
+	now := time.Now()
+	spam := false
+	for i := 0; i < 2+vf.Choose("extra-while-banned", 3); i++ {
+		spam = p.antispamer.IsSpam("7", "src", false, []byte("e"), now, nil)
+	}
+	vf.Assert(spam, "banned-at-threshold")
+	// silence; refused records are not counted as input, so the pipeline looks idle
+	time.Sleep(time.Duration(unban+2) * time.Second)
+	spam = p.antispamer.IsSpam("7", "src", false, []byte("e"), time.Now(), nil)
+	p.shouldStop.Store(true)
+	if vf.Param("twin", 0) == 1 {
+		vf.Assert(spam, "unbanned-after-silence-while-idle")
+		return
+	}
+	vf.Assert(!spam, "unbanned-after-silence-while-idle")
+	vf.Reach("unbanned")
 }
